@@ -59,6 +59,7 @@ class InternalFailureMonitor(Monitor):
     def __init__(self, check_typeerrors=True):
         Monitor.__init__(self)
         self.check_typeerrors = check_typeerrors
+        self.inconsistent = set()
 
     def attach(self, run):
         Monitor.attach(self, run)
@@ -75,6 +76,21 @@ class InternalFailureMonitor(Monitor):
                              f"{ev['t'] - BASE_TIME:.3f}: {ev['msg'][-1500:]}", guard=guard)
         elif kind == 'internal_error':
             key = traceback_key(ev.get('tb', ''))
+            if ev.get('method') == 'supvisors.update_numprocs' and ev.get('where') == 'rpc_callee':
+                # cause tested on the real Supervisor: the KeyError names a group of the configuration that is not
+                # loaded in the Supervisor of that instance at this instant (removed by supervisor.removeProcessGroup)
+                last = ev.get('tb', '').strip().splitlines()[-1]
+                inst = self.run.world.instances.get(ev.get('inst'))
+                if last.startswith('KeyError: ') and inst is not None:
+                    group = last[len('KeyError: '):].strip('\'"')
+                    program = ev.get('args', '').split("'")[1] if "'" in ev.get('args', '') else ''
+                    if group in self.run.world.spec_of(inst.nick)['groups'] and group not in inst.sd.process_groups:
+                        key += ':group-removed-from-supervisor'
+                        # the numprocs of the program may have been changed before the error: from now on Supvisors
+                        # and Supervisor disagree on the processes of this program on this instance
+                        self.inconsistent.add((inst.nick, inst.inc, program))
+                    elif (inst.nick, inst.inc, program) in self.inconsistent:
+                        key += ':after-a-change-interrupted-by-group-removed-from-supervisor'
             self.violate(f"C16/{ev['where']}:{key}", f"internal error ({ev['where']}) on {ev.get('inst')} "
                          f"method={ev.get('method')} args={ev.get('args')}: {ev.get('tb', '')[-1500:]}")
         elif kind == 'rpc_typeerror' and self.check_typeerrors:
@@ -98,6 +114,54 @@ class InternalFailureMonitor(Monitor):
                 self.violate('C16/ticks-stopped', f'{nick}: tick counter went from {c0} to '
                              f'{inst.supvisors.listener.counter} in 3 ticks of virtual time')
         return self.violations
+
+
+class DynConfMonitor(Monitor):
+    """ C16 (XML-RPC callers get a result or a documented fault) for the requests that change the Supervisor
+    configuration at run time: update_numprocs, enable, disable. The fault codes are those of the docstrings of
+    the methods (the published API documentation). """
+
+    DOCUMENTED = {'supvisors.update_numprocs': {101: 'BAD_SUPVISORS_STATE', 10: 'BAD_NAME', 2: 'INCORRECT_PARAMETERS',
+                                                104: 'NOT_APPLICABLE', 91: 'STILL_RUNNING'},
+                  'supvisors.enable': {101: 'BAD_SUPVISORS_STATE', 10: 'BAD_NAME'},
+                  'supvisors.disable': {101: 'BAD_SUPVISORS_STATE', 10: 'BAD_NAME', 91: 'STILL_RUNNING'}}
+
+    def attach(self, run):
+        Monitor.attach(self, run)
+        run.world.listeners.append(self.on_event)
+
+    def on_event(self, ev):
+        kind = ev['k']
+        if kind == 'rpc_fault' and ev.get('src') == 'user' and ev['method'] in self.DOCUMENTED:
+            self.judge(ev['method'], ev['args'], ev['code'], ev['text'], ev['dst'], ev['t'])
+        elif kind == 'rpc_ret' and ev.get('src') == 'user' and ev['method'] in self.DOCUMENTED:
+            self.count('configuration_requests_answered')
+        elif kind == 'rpc_deferred_done' and ev.get('src') == 'user' and ev['method'] in self.DOCUMENTED:
+            if ev.get('fault'):
+                self.judge(ev['method'], ev['args'], ev['fault'][0], ev['fault'][1], ev['inst'], ev['t'])
+            else:
+                self.count('configuration_requests_answered')
+
+    def judge(self, method, args, code, text, nick, t):
+        self.count('configuration_requests_answered')
+        self.count('configuration_requests_refused')
+        if code not in self.DOCUMENTED[method]:
+            mech = ''
+            inst = self.run.world.instances.get(nick)
+            if code == 30 and method == 'supvisors.update_numprocs' and inst is not None and 'processes=' in text:
+                # cause tested on the real Supervisor: every process named by the fault is STOPPING there right now
+                # (it was already stopping when the decrease was requested without wait)
+                import ast
+                try:
+                    names = ast.literal_eval(text.split('processes=', 1)[1])
+                except (ValueError, SyntaxError):
+                    names = []
+                truth = inst.running_truth()
+                if names and all(truth.get(n) == 40 for n in names):
+                    mech = ':process-already-stopping-when-the-decrease-is-requested-without-wait'
+            self.violate(f"C16/undocumented-fault:{method.split('.')[1]}:{code}{mech}",
+                         f'{method}{args} on {nick} at vt={t - BASE_TIME:.3f} answered the fault {code} ({text}), which '
+                         f'is not one of the documented faults of this request {sorted(self.DOCUMENTED[method].values())}')
 
 
 # ---------------------------------------------------------------------------------------------------
